@@ -13,6 +13,7 @@ def sessions(ctx):
         for k in range(ctx.pick(150, 1500)):
             g = gen.SessionGen(ctx.seed * 104729 + k, nconn=(1, 2), nmsg=(20, 60), junk=0.03, core=None, dy=(k % 5 == 0))
             yield g.session(), {'dialect': ctx.rnd.choice(['old', 'new']), 'mark': ctx.rnd.choice(['.', ','])}, 'random'
+        yield from sessbase.rich_sessions(ctx, 1000033, ctx.pick(40, 400))
         for k in range(ctx.pick(6, 30)):
             r2 = random.Random(ctx.seed * 37 + k)
             yield (c02.churn_session(r2, r2.choice([10, 40]), server_side=k % 2 == 0, srv=k % 3 == 0),
